@@ -12,7 +12,11 @@
 //!     argument / assignment / local / generic-for list, or last positional table field): then it
 //!     is emitted as "(Trunc …)". Operator grouping needs no rule: it is the tree shape;
 //!   * the `|` / `&` tokens of Luau unions/intersections are dropped (the nesting carries the
-//!     structure, and a leading separator is cosmetic).
+//!     structure, and a leading separator is cosmetic);
+//!   * a parenthesised union that is itself an operand of a union is spliced into it (`A | (B | C)`
+//!     is `A | B | C`: the parentheses are redundant, union is associative), likewise an
+//!     intersection inside an intersection. A union inside an intersection (or the reverse), or
+//!     under `?`, keeps its node.
 //! This is deliberately not StyLua's own verify_ast.
 
 use crate::lex;
@@ -33,6 +37,9 @@ pub struct Nf {
     expr_emit: Vec<u8>,
     args_emit: Vec<u8>,
     type_emit: Vec<u8>,
+    /// the next TypeUnion / TypeIntersection node belongs to a spliced operand: emit nothing
+    splice_next: bool,
+    chain_emit: Vec<u8>,
     int_subtype: bool,
 }
 
@@ -63,6 +70,8 @@ impl Nf {
             expr_emit: Vec::new(),
             args_emit: Vec::new(),
             type_emit: Vec::new(),
+            splice_next: false,
+            chain_emit: Vec::new(),
             int_subtype,
         }
     }
@@ -140,9 +149,7 @@ impl Visitor for Nf {
         visit_type_field, visit_type_field_end, luau::TypeField, "TypeField";
         visit_type_field_key, visit_type_field_key_end, luau::TypeFieldKey, "TypeFieldKey";
         visit_type_function, visit_type_function_end, luau::TypeFunction, "TypeFunction";
-        visit_type_intersection, visit_type_intersection_end, luau::TypeIntersection, "TypeIntersection";
         visit_type_specifier, visit_type_specifier_end, luau::TypeSpecifier, "TypeSpecifier";
-        visit_type_union, visit_type_union_end, luau::TypeUnion, "TypeUnion";
         visit_goto, visit_goto_end, lua52::Goto, "Goto";
         visit_label, visit_label_end, lua52::Label, "Label";
         visit_attribute, visit_attribute_end, lua54::Attribute, "Attribute";
@@ -264,7 +271,50 @@ impl Visitor for Nf {
         }
     }
 
+    fn visit_type_union(&mut self, _n: &luau::TypeUnion) {
+        if self.splice_next {
+            self.splice_next = false;
+            self.chain_emit.push(0);
+        } else {
+            self.open("TypeUnion");
+            self.chain_emit.push(1);
+        }
+    }
+    fn visit_type_union_end(&mut self, _n: &luau::TypeUnion) {
+        if self.chain_emit.pop().unwrap_or(1) == 1 {
+            self.close();
+        }
+    }
+    fn visit_type_intersection(&mut self, _n: &luau::TypeIntersection) {
+        if self.splice_next {
+            self.splice_next = false;
+            self.chain_emit.push(0);
+        } else {
+            self.open("TypeIntersection");
+            self.chain_emit.push(1);
+        }
+    }
+    fn visit_type_intersection_end(&mut self, _n: &luau::TypeIntersection) {
+        if self.chain_emit.pop().unwrap_or(1) == 1 {
+            self.close();
+        }
+    }
+
     fn visit_type_info(&mut self, n: &luau::TypeInfo) {
+        // a union operand of a union (only possible through parentheses) is spliced
+        match n {
+            luau::TypeInfo::Union(_) if self.stack.last() == Some(&"TypeUnion") => {
+                self.type_emit.push(0);
+                self.splice_next = true;
+                return;
+            }
+            luau::TypeInfo::Intersection(_) if self.stack.last() == Some(&"TypeIntersection") => {
+                self.type_emit.push(0);
+                self.splice_next = true;
+                return;
+            }
+            _ => {}
+        }
         // a parenthesised single type is a redundant parenthesis, except as a generic argument
         // (there it is a type pack)
         if let luau::TypeInfo::Tuple { types, .. } = n {
